@@ -571,6 +571,12 @@ func candidateValues(s J, root J, depth int) []interface{} {
 			o2 := cloneJ(base)
 			o2["k2"] = av[0]
 			out = append(out, o2)
+			// two entries, the second one deviating (entries must not influence each other)
+			for _, v := range av[1:] {
+				o := cloneJ(base)
+				o["k2"] = v
+				out = append(out, o)
+			}
 		}
 		extra := cloneJ(base)
 		extra["undeclared"] = "u"
@@ -635,4 +641,55 @@ func validationErrors(schema J, root J, data interface{}) string {
 		msgs = append(msgs, e.Error())
 	}
 	return strings.Join(msgs, "; ")
+}
+
+// EnumerateStackDefs: "container stacks" - every chain of length minLen..maxLen over the container and
+// property contexts {array, map, arrayprop, mapprop, props+addl, reqprop, optprop, ref} around two validated
+// leaves. These are the depth-3 shapes (map of arrays of objects, objects in arrays in additional properties
+// ...) that the general grammar only reaches at depth 2.
+func EnumerateStackDefs(prefix string, minLen, maxLen int) []DefCase {
+	names := []string{"array", "map", "arrayprop", "mapprop", "props+addl", "reqprop", "optprop", "ref"}
+	byName := map[string]SchemaCtx{}
+	for _, c := range schemaContexts() {
+		byName[c.Name] = c
+	}
+	var leaves []Leaf
+	for _, l := range reducedLeaves() {
+		if l.Kw == "integer:minimum1" || l.Kw == "string:minLength1" {
+			leaves = append(leaves, l)
+		}
+	}
+	var out []DefCase
+	var rec func(chain []string)
+	rec = func(chain []string) {
+		if len(chain) >= minLen {
+			for _, leaf := range leaves {
+				b := &defBuilder{aux: map[string]J{}, name: "@@"}
+				s := cloneJ(leaf.Schema)
+				ok := true
+				for i := len(chain) - 1; i >= 0; i-- {
+					s = byName[chain[i]].Wrap(s, b)
+					if s == nil {
+						ok = false
+						break
+					}
+				}
+				if ok {
+					ch := strings.Join(chain, ">")
+					out = append(out, DefCase{Schema: s, Aux: b.aux, Desc: ch + ">" + leaf.Desc, Kw: leaf.Kw, Chain: ch})
+				}
+			}
+		}
+		if len(chain) == maxLen {
+			return
+		}
+		for _, n := range names {
+			if len(chain) > 0 && n == "ref" && chain[len(chain)-1] == "ref" {
+				continue // ref>ref is the two-hop alias, covered by ref2prop
+			}
+			rec(append(append([]string{}, chain...), n))
+		}
+	}
+	rec(nil)
+	return nameDefs(out, prefix)
 }
